@@ -31,6 +31,8 @@ ViewExp(api, n, l, k, m) ==
       [] api \in ElemApis -> VOk([i \in 1..n |-> W(i - 1, 1)], -1)
       [] api \in PanicForms -> IF l = n THEN VOk(<<W(0, n)>>, -1) ELSE VFail("panic")
       [] api \in ErrForms -> IF l = n THEN VOk(<<W(0, n)>>, -1) ELSE VFail("err")
+      \* indexing through Deref / DerefMut (l carries the index): one element, or the slice's bounds panic
+      [] api \in {"index", "index_mut", "get"} -> IF l < n THEN VOk(<<W(l, 1)>>, -1) ELSE VFail(IF api = "get" THEN "err" ELSE "panic")
       [] api \in {"split_ref", "split_mut"} -> VOk(<<W(0, k), W(k, n - k)>>, -1)
       [] api \in {"flatten_ref", "flatten_mut"} -> VOk(<<W(0, n * m)>>, -1)
       [] api \in {"unflatten_ref", "unflatten_mut"} -> VOk(<<W(0, n * m)>>, m)
